@@ -148,7 +148,7 @@ impl Scenario for MatchScenario {
 					};
 					let expected = match op {
 						FeOp::Call | FeOp::LateCall => format!("\"r{k}\""),
-						FeOp::Subscribe => format!("Subscription(Str(\"S{k}\"))"),
+						FeOp::Subscribe | FeOp::SubscribeDrop => format!("Subscription(Str(\"S{k}\"))"),
 						FeOp::Batch(n) => format!("[{}]", (0..*n).map(|j| format!("\"r{k}.{j}\"")).collect::<Vec<_>>().join(",")),
 						FeOp::Notif => "sent".into(),
 					};
